@@ -38,7 +38,7 @@ structure Inst where
   start  : Nat := 0          -- `_reset`: initial `current_depot` (0 for start_mode "order", a random depot for "random")
 
 /-- `num_loc // 2` of `_step` -/
-def Inst.h (i : Inst) : Nat := (i.N - i.K) / 2
+def Inst.h (i : Inst) : Nat := (i.N - i.K) / Params.mdcpdpPdDiv
 /-- `pd_split_idx` -/
 def Inst.pd (i : Inst) : Nat := i.h + i.K
 
@@ -85,6 +85,14 @@ def capFlagOf (i : Inst) (carry : Int) (depot : Nat) : Bool := Params.mdcpdpCapC
 /-- `carry_flag = current_carry > 0` (operator extracted from the source) -/
 def carryFlagOf (carry : Int) : Bool := Params.mdcpdpCarryCmp.eval carry 0
 
+/-- `(current_node < pd_split_idx) & (current_node >= num_depot)`: a pickup (operators extracted from the source) -/
+def pickTest (i : Inst) (a : Nat) : Bool := Params.mdcpdpPickLtCmp.evalNat a i.pd && Params.mdcpdpPickGeCmp.evalNat a i.K
+/-- `current_node >= pd_split_idx`: a delivery (operator extracted from the source) -/
+def delivTest (i : Inst) (a : Nat) : Bool := Params.mdcpdpDelivGeCmp.evalNat a i.pd
+/-- `(current_node < num_depot) & (td["current_node"] < num_depot)`: a move between two depots costs nothing
+(operators extracted from the source) -/
+def depotLeg (i : Inst) (cur a : Nat) : Bool := Params.mdcpdpLegToCmp.evalNat a i.K && Params.mdcpdpLegFromCmp.evalNat cur i.K
+
 /-- the mask assembled at the end of `_step` from the updated bookkeeping -/
 def maskOf (i : Inst) (back : Bool) (avail td : Nat → Bool) (carry : Int) (depot : Nat)
     (doneL : Bool) : Nat → Bool :=
@@ -104,19 +112,25 @@ def maskOf (i : Inst) (back : Bool) (avail td : Nat → Bool) (carry : Int) (dep
       let m1 := if j < i.pd then m0 && !capFlag else m0
       m1 && !back
 
-/-- `_step` -/
-def step (i : Inst) (s : State) (a : Nat) : State :=
+/-- which visits update `current_depot`: as coded `torch.where(back_flag, current_node, current_depot)` (only a return to
+an already visited depot), or — the intended semantics, `tok = true` — every visit of a depot
+(`torch.where(current_node < num_depot, …)`).  The token is extracted from the source. -/
+def depotSel (tok : Bool) (i : Inst) (back : Bool) (a : Nat) : Bool := if tok then decide (a < i.K) else back
+
+/-- `_step`, parametric in the `current_depot` update rule -/
+def stepF (tok : Bool) (i : Inst) (s : State) (a : Nat) : State :=
   -- new_to_deliver = (current_node + num_loc // 2) % (num_loc + num_depot)
   let newTD := (a + i.pairOff) % i.N
   let back := backFlag i s a
   let avail' := upd s.avail a false
   let td' := upd s.toDeliver newTD true
   -- current_carry += pickup ; current_carry -= delivery
-  let carry' := s.carry + (if i.K ≤ a ∧ a < i.pd then 1 else 0) - (if i.pd ≤ a then 1 else 0)
-  -- current_depot = where(back_flag, current_node, current_depot)
-  let depot' := if back then a else s.depot
+  let carry' := s.carry + (if pickTest i a then 1 else 0) - (if delivTest i a then 1 else 0)
+  -- current_depot = where(back_flag, current_node, current_depot)        (tok = false, the code as it is)
+  -- current_depot = where(current_node < num_depot, current_node, …)     (tok = true, the intended semantics)
+  let depot' := if depotSel tok i back a then a else s.depot
   -- step length: 0 between two depots; 0 for the way back in open mode
-  let sl1 := if a < i.K ∧ s.cur < i.K then 0 else i.D s.cur a
+  let sl1 := if depotLeg i s.cur a then 0 else i.D s.cur a
   let sl2 := if openZero i s.cur a then 0 else sl1
   -- current_length.scatter_add_(-1, current_depot, current_step_length)
   let len' := upd s.len depot' (s.len depot' + sl2)
@@ -126,11 +140,22 @@ def step (i : Inst) (s : State) (a : Nat) : State :=
     toDeliver := td', avail := avail', mask := maskOf i back avail' td' carry' depot' (doneOf i avail'),
     done := doneOf i avail' }
 
+/-- `_step` as the source has it (the update rule is the extracted token) -/
+def step (i : Inst) (s : State) (a : Nat) : State := stepF Params.mdcpdpDepotOnVisit i s a
+
 def env : Env Inst State where
   reset := reset
   nAct i := i.N
   mask _ s a := s.mask a
   step := step
+  done _ s := s.done
+
+/-- the environment with the intended `current_depot` rule (what a maintainer's one-line fix gives) -/
+def envFixed : Env Inst State where
+  reset := reset
+  nAct i := i.N
+  mask _ s a := s.mask a
+  step := stepF true
   done _ s := s.done
 
 def sumList (xs : List Int) : Int := xs.sum
